@@ -8,7 +8,7 @@ from ..common import Violation, Discard, call, EPS, recorded_warnings
 from ..hyp import drive
 from .. import estimators as E, gen, oracles as O
 
-RULE = ('Covariance: generated (X) incl. rank-deficient layouts (duplicated column, constant column, n <= d) vs the four '
+RULE = ('Covariance: generated (X) incl. rank-deficient layouts (duplicated column, constant column, n <= d, n <= d with a repeated sample or all samples on a line / plane) vs the four '
         'Moore-Penrose conditions w.r.t. an own two-pass covariance; RCA: chunk layouts with -1 holes, singleton chunks, '
         'non-contiguous ids, n_components 1..d vs own within-chunk covariance (M C = I; reduced: L C L^T = I_k and the '
         'retained generalised eigenvalues are the k smallest of (C, T)); LFDA: k in {None,1..d-1,>=d} x embedding_type x '
@@ -25,7 +25,7 @@ ASSUMPTIONS = ['LFDA weighted scaling is asserted up to a common additive shift 
 @st.composite
 def cov_case(draw):
   desc = draw(gen.dataset_desc(dmin=1, dmax=8))
-  layout = draw(st.sampled_from(['full', 'full', 'dup-column', 'const-column', 'few-samples']))
+  layout = draw(st.sampled_from(['full', 'full', 'dup-column', 'const-column', 'few-samples', 'few-samples-repeat', 'few-samples-subspace']))
   return dict(kind='cov', desc=desc, layout=layout, j=draw(st.integers(0, 7)), n_few=draw(st.integers(2, 8)))
 
 
@@ -43,6 +43,18 @@ def check_cov(case, stats):
     X[:, j] = 3.25
   elif lay == 'few-samples':
     X = X[:max(2, min(case['n_few'], d))]
+  elif lay == 'few-samples-repeat':
+    # no more samples than features AND a repeated sample: rank n - 2
+    X = X[:max(3, min(case['n_few'], d))]
+    X[-1] = X[j % (len(X) - 1)]
+  elif lay == 'few-samples-subspace':
+    # no more samples than features, all on one affine line / plane: rank 1 or 2
+    m_ = max(3, min(case['n_few'], d))
+    r_ = 1 + j % 2
+    if m_ - 1 <= r_:
+      raise Discard('too few samples for a rank-deficient subspace layout')
+    coef = np.round(X[:m_, :r_] * 8) / 8
+    X = X[0] + coef.dot(X[m_:m_ + r_] - X[0])
   est = E.build('Covariance', {})
   r = call('C09/Covariance/fit', est.fit, X)
   M = est.get_mahalanobis_matrix()
